@@ -19,25 +19,30 @@ CONSTANTS Msgs,       \* sequence of message templates [typ, chars, frames]; fra
           Edits,      \* sequence of contents an addon may write
           Injects,    \* sequence of <<typ, content>> an addon may inject
           FS,         \* Fragmentizer.FRAGMENT_SIZE (>= 4)
-          MaxMsgs, MaxCtl, MaxInj, Batches   \* bounds; Batches: BOOLEAN (two messages in one TCP segment)
+          MaxMsgs,    \* bound on the number of messages the peers send
+          MaxExtra,   \* bound on the number of other environment events (ping/pong, close, EOF, injection)
+          Acts,       \* what the addon may do in the hook: subset of -1..Len(Edits) (-1 drop, 0 keep, e: write Edits[e])
+          Batches,    \* BOOLEAN: two messages may arrive in one TCP segment
+          AfterClose  \* BOOLEAN: peers keep sending after the layer has processed a close
 VARIABLES env,      \* per direction: template being sent and number of frames sent; closed: close frame/EOF sent
           cur,      \* per direction, layer side: [dc: characters decoded so far, fl: finished frame_buf entries]
           hk,       \* pending websocket_message hook [on, d, typ, c, fl, inj]
           rest,     \* ws events of the current batch not handled yet (the for loop is suspended at the hook)
           q,        \* Layer._paused_event_queue
           done,     \* _handle_event = done
-          cnt,      \* [msgs, ctl, inj]
+          cnt,      \* [msgs, extra]
           mon, obs
 vars == <<env, cur, hk, rest, q, done, cnt, mon, obs>>
 
 NoHook == [on |-> FALSE, d |-> "", typ |-> "", c |-> <<>>, fl |-> <<>>, inj |-> FALSE]
-Init == /\ env = [d \in Dirs |-> [t |-> 0, j |-> 0, closed |-> FALSE]]
+Init == /\ env = [d \in Dirs |-> [t |-> 0, j |-> 0, closed |-> FALSE, ictl |-> FALSE]]
         /\ cur = [d \in Dirs |-> [dc |-> <<>>, fl |-> <<>>]]
         /\ hk = NoHook /\ rest = <<>> /\ q = <<>> /\ done = FALSE
-        /\ cnt = [msgs |-> 0, ctl |-> 0, inj |-> 0] /\ mon = MonInit /\ obs = <<>>
+        /\ cnt = [msgs |-> 0, extra |-> 0] /\ mon = MonInit /\ obs = <<>>
 
 Ended == obs # <<>> /\ obs[Len(obs)].k = "end"
 Live == mon.bad = <<>> /\ ~Ended
+EnvOk == Live /\ (AfterClose \/ ~done)
 Emit(evs) == obs' = evs /\ mon' = FoldEvents(MonStep, mon, evs)
 
 \* ---- contents ----------------------------------------------------------------------------------------------
@@ -153,55 +158,56 @@ W0(first) == [cur |-> cur, hk |-> hk, rest |-> rest, q |-> q, done |-> done, out
 Commit(w) == /\ cur' = w.cur /\ hk' = w.hk /\ rest' = w.rest /\ q' = w.q /\ done' = w.done /\ Emit(w.out)
 
 Inp(k, d, t, j, typ, c, code) == [k |-> k, d |-> d, t |-> t, j |-> j, typ |-> typ, c |-> c, code |-> code]
-MsgIn(d, t) == [k |-> "msg_in", d |-> d, typ |-> Msgs[t].typ, c |-> Msgs[t].chars, frags |-> Msgs[t].frames,
-                split |-> Split(Msgs[t])]
+MsgIn(d, t, ictl) == [k |-> "msg_in", d |-> d, typ |-> Msgs[t].typ, c |-> Msgs[t].chars, frags |-> Msgs[t].frames,
+                      split |-> Split(Msgs[t]), ictl |-> ictl, z |-> FALSE]   \* z: set by the harness, see props/C28.py
 
 \* ---- environment -------------------------------------------------------------------------------------------
 \* the peer of direction d puts the next frame of a message on the wire (one or more TCP segments, cut anywhere)
 SendFrame(d, t) ==
-  /\ Live /\ ~env[d].closed
+  /\ EnvOk /\ ~env[d].closed
   /\ IF env[d].t = 0 THEN t \in 1..Len(Msgs) /\ cnt.msgs < MaxMsgs ELSE t = env[d].t
   /\ LET j    == env[d].j + 1
          last == j = Len(Msgs[t].frames)
-     IN /\ env' = [env EXCEPT ![d] = IF last THEN [@ EXCEPT !.t = 0, !.j = 0] ELSE [@ EXCEPT !.t = t, !.j = j]]
+     IN /\ env' = [env EXCEPT ![d] = IF last THEN [@ EXCEPT !.t = 0, !.j = 0, !.ictl = FALSE] ELSE [@ EXCEPT !.t = t, !.j = j]]
         /\ cnt' = IF env[d].t = 0 THEN [cnt EXCEPT !.msgs = @ + 1] ELSE cnt
-        /\ Commit(Feed(W0(IF last THEN <<MsgIn(d, t)>> ELSE <<>>), Inp("frame", d, t, j, "", <<>>, 0)))
+        /\ Commit(Feed(W0(IF last THEN <<MsgIn(d, t, env[d].ictl)>> ELSE <<>>), Inp("frame", d, t, j, "", <<>>, 0)))
 
 \* two complete messages in one TCP segment: the second one waits inside the for loop while the first is in its hook
 SendTwo(d, t1, t2) ==
-  /\ Live /\ Batches /\ ~env[d].closed /\ env[d].t = 0 /\ cnt.msgs + 2 <= MaxMsgs
+  /\ EnvOk /\ Batches /\ ~env[d].closed /\ env[d].t = 0 /\ cnt.msgs + 2 <= MaxMsgs
   /\ t1 \in 1..Len(Msgs) /\ t2 \in 1..Len(Msgs)
   /\ cnt' = [cnt EXCEPT !.msgs = @ + 2] /\ UNCHANGED env
-  /\ Commit(Feed(W0(<<MsgIn(d, t1), MsgIn(d, t2)>>), Inp("two", d, t1, t2, "", <<>>, 0)))
+  /\ Commit(Feed(W0(<<MsgIn(d, t1, FALSE), MsgIn(d, t2, FALSE)>>), Inp("two", d, t1, t2, "", <<>>, 0)))
 
 SendCtl(d, op) ==
-  /\ Live /\ ~env[d].closed /\ cnt.ctl < MaxCtl
-  /\ cnt' = [cnt EXCEPT !.ctl = @ + 1] /\ UNCHANGED env
-  /\ Commit(Feed(W0(<<[k |-> "ctl_in", d |-> d, op |-> op, c |-> <<11>>]>>), Inp("ctl", d, 0, 0, op, <<11>>, 0)))
+  /\ EnvOk /\ ~env[d].closed /\ cnt.extra < MaxExtra
+  /\ cnt' = [cnt EXCEPT !.extra = @ + 1]
+  /\ env' = [env EXCEPT ![d].ictl = @ \/ env[d].t # 0]
+  /\ Commit(Feed(W0(<<[k |-> "ctl_in", d |-> d, op |-> op, c |-> <<11>>, mid |-> env[d].t # 0, z |-> FALSE]>>), Inp("ctl", d, 0, 0, op, <<11>>, 0)))
 
 SendClose(d, withCode) ==
-  /\ Live /\ ~env[d].closed /\ env[d].t = 0
-  /\ env' = [env EXCEPT ![d].closed = TRUE] /\ UNCHANGED cnt
+  /\ EnvOk /\ ~env[d].closed /\ env[d].t = 0 /\ cnt.extra < MaxExtra
+  /\ env' = [env EXCEPT ![d].closed = TRUE] /\ cnt' = [cnt EXCEPT !.extra = @ + 1]
   /\ LET code == IF withCode THEN 4000 ELSE 1005
          rsn  == IF withCode THEN <<21, 11>> ELSE <<>>
      IN Commit(Feed(W0(<<[k |-> "close_in", d |-> d, code |-> code, reason |-> rsn]>>),
                     Inp("close", d, 0, 0, "", rsn, code)))
 
 SendEof(d) ==
-  /\ Live /\ ~env[d].closed
-  /\ env' = [env EXCEPT ![d].closed = TRUE] /\ UNCHANGED cnt
+  /\ EnvOk /\ ~env[d].closed /\ cnt.extra < MaxExtra
+  /\ env' = [env EXCEPT ![d].closed = TRUE] /\ cnt' = [cnt EXCEPT !.extra = @ + 1]
   /\ Commit(Feed(W0(<<[k |-> "eof", d |-> d]>>), Inp("eof", d, 0, 0, "", <<>>, 0)))
 
 Inject(d, n) ==
-  /\ Live /\ n \in 1..Len(Injects) /\ cnt.inj < MaxInj
-  /\ cnt' = [cnt EXCEPT !.inj = @ + 1] /\ UNCHANGED env
+  /\ EnvOk /\ n \in 1..Len(Injects) /\ cnt.extra < MaxExtra
+  /\ cnt' = [cnt EXCEPT !.extra = @ + 1] /\ UNCHANGED env
   /\ LET typ == Injects[n][1]  c == Injects[n][2] IN
      Commit(Feed(W0(<<[k |-> "inject", d |-> d, typ |-> typ, c |-> c, mid |-> env[d].t # 0, mb |-> Multi(typ, c)]>>),
                  Inp("inject", d, 0, 0, typ, c, 0)))
 
 \* the addon returns from the websocket_message hook; e = 0: keep, e = -1: drop, else write Edits[e]
 HookDone(e) ==
-  /\ Live /\ hk.on /\ e \in (-1)..Len(Edits)
+  /\ Live /\ hk.on /\ e \in Acts
   /\ UNCHANGED <<env, cnt>>
   /\ LET act  == IF e = 0 THEN "keep" ELSE IF e = -1 THEN "drop" ELSE "edit"
          newc == IF e > 0 THEN Edits[e] ELSE hk.c
